@@ -317,6 +317,12 @@ class Gen:
             ext = ("obj", self.members(d - 1, sc, with_asserts=False)) if r.random() < 0.7 else self.O(d - 1, sc, inobj)
             used = ("bin", "==", ("var", v), ("var", v)) if r.random() < 0.6 else \
                 ("bin", ">=", call(std("length"), call(std("toString"), ("var", v))), num(0))
+            if r.random() < 0.5:
+                # both operands are used before they are combined
+                v2 = self.fresh("o")
+                used2 = ("bin", "==", ("var", v2), ("var", v2))
+                return ("local", [("bind", v, None, first), ("bind", v2, None, ext)],
+                        ("if", ("bin", "&&", used, used2), ("bin", "+", ("var", v), ("var", v2)), ("obj", [])))
             return ("local", [("bind", v, None, first)], ("if", used, ("bin", "+", ("var", v), ext), ("obj", [])))
         if k < 0.9 and self.allow_remove_key:
             return call(std("objectRemoveKey"), self.O(d - 1, sc, inobj), s(r.choice(NUM_FIELDS)))
